@@ -255,6 +255,31 @@ def _desugar_comprehensions(fn):
     return count
 
 
+def loop_headers(fn_node):
+    """headers of the loops of a function in source order (nested functions excluded): what the ordinal of a
+    loop contract refers to"""
+    out = []
+
+    def rec(stmts, depth):
+        for s in stmts:
+            if isinstance(s, (ast.FunctionDef, ast.AsyncFunctionDef, ast.ClassDef)):
+                continue
+            if isinstance(s, (ast.For, ast.AsyncFor)):
+                out.append('%d for %s in %s' % (depth, ast.unparse(s.target), ast.unparse(s.iter)))
+                rec(s.body, depth + 1)
+                rec(s.orelse, depth + 1)
+            elif isinstance(s, ast.While):
+                out.append('%d while %s' % (depth, ast.unparse(s.test)))
+                rec(s.body, depth + 1)
+            else:
+                for f in ('body', 'orelse', 'finalbody'):
+                    rec(getattr(s, f, []) or [], depth)
+                for h in getattr(s, 'handlers', []) or []:
+                    rec(h.body, depth)
+    rec(fn_node.body, 0)
+    return out
+
+
 def shape(fn_node):
     """Shape fingerprint: sequence of loop kinds with nesting depth, awaits, yields, try blocks."""
     out = []
